@@ -244,6 +244,10 @@ def sample_modes(name, prior, seq):
 
 
 def run(tier, seed, rep):
+    # histories of public API calls and device changes on one object, then probes of the API-level properties
+    from .. import api_sessions
+    _api = api_sessions.explore(tier, seed, {'C19'})
+    rep.add_many([v for v in _api['violations'] if v['prop'] == 'C19'])
     ej = [('v1', 0, False)] + [('v2', t, is745) for t in (0, 1, 2, 3, 4, 5, 6, 85) for is745 in (False, True)]
     n_enc = 0
     for n, res in pmap(encoder_job, ej):
@@ -265,7 +269,8 @@ def run(tier, seed, rep):
     for n, res in pmap(limits_job, lim):
         n_lim += n
         rep.add_many(res)
-    cov = dict(states=len(jobs) * 8, transitions=n_e2e, executions=n_enc + n_e2e + n_lim, traces_validated_against_impl=n_e2e + n_lim,
+    cov = dict(api_session_histories=_api['histories'], api_session_states=_api['states'],
+               states=len(jobs) * 8, transitions=n_e2e, executions=n_enc + n_e2e + n_lim, traces_validated_against_impl=n_e2e + n_lim,
                encoder_evaluations=n_enc, mode_changes=n_e2e, limit_round_trips=n_lim, exhaustive=True,
                bound='encoder level: power 1..100 x SoC 0..100 x every schedule type the sensor can hold before normalisation x '
                      '745 flag, charge and discharge; end to end: ET {eco v1, v2, v2 without peak shaving, 745} and ES {arm 6, '
@@ -284,6 +289,11 @@ def run(tier, seed, rep):
 
 
 def replay(r):
+    if r.get('part') == 'api-session':
+        from .. import api_sessions
+        out = api_sessions.replay(r)
+        out['violations'] = [m for m in out['violations'] if m[0] == 'C19']
+        return out
     if r['part'] == 'enc':
         n, res = encoder_job(tuple(r['job']))
         return dict(evaluations=n, violations=[v['key'] for v in res])
